@@ -699,6 +699,7 @@ func emitHandshakeResults(run *Run, res []hsResult) {
 		"insp": {"insp_case", "insp_mismatches"},
 		"upd":  {"upd_case", "upd_mismatches tls_manager_cached"},
 		"sds":  {"sds_case", "sds_mismatches sds_update_always_installs"},
+		"file": {"file_case", "file_mismatches tls_ca_pool_cached"},
 	}
 	for _, h := range res {
 		if h.Kind == "skip" { // recorded in the distribution only
@@ -719,7 +720,7 @@ func emitHandshakeResults(run *Run, res []hsResult) {
 			run.Sum.Samples = append(run.Sum.Samples, h.Rep)
 		}
 	}
-	for _, k := range []string{"sel", "auth", "up", "insp", "upd", "sds"} {
+	for _, k := range []string{"sel", "auth", "up", "insp", "upd", "sds", "file"} {
 		if shards[k] != nil {
 			shards[k].Close()
 		}
@@ -1215,6 +1216,8 @@ func runHandshakes(run *Run, right, other *authority, ls []*listenerUnderTest, v
 	}
 	// ---- B6: SDS providers over histories of secret pushes and config updates ----
 	out = append(out, runSDSHistories(run, right, other, ver, maxVer)...)
+	// ---- B7: file-backed material over histories of configuration applications ----
+	out = append(out, runFileHistories(run, right, other, ver, maxVer)...)
 	return out
 }
 
